@@ -54,9 +54,11 @@ def full_options():
     }
 
 
-def _b(bid, doc, platforms=(None,), dowhile=None, nonc=(), files=None):
+def _b(bid, doc, platforms=(None,), dowhile=None, nonc=(), files=None, shape_only=False):
+    """shape_only: the base is there for its references / identifiers / variables; its option keys are the ones
+    every other base has, so the key and type families are enumerated for it in the thorough tier only."""
     return {'id': bid, 'root': {'doc': doc, 'dowhile': dowhile}, 'platforms': list(platforms), 'nonc': list(nonc),
-            'files': dict(files or {})}
+            'files': dict(files or {}), 'shape_only': shape_only}
 
 
 def bases():
@@ -201,11 +203,11 @@ def bases():
         'application-dependencies': {'default': ['prep.application']},
         'components': [comp('prep'),
                        comp('sim', 0, ['stage0.prep:ref', 'prep/bin:ref']),
-                       comp('report', 1, ['stage0.sim:ref', 'stage0.prep/out.txt:copy'])]}, nonc=('prep',)))
+                       comp('report', 1, ['stage0.sim:ref', 'stage0.prep/out.txt:copy'])]}, nonc=('prep',), shape_only=True))
     out.append(_b('b28-component-named-like-top-level-folder', {
         'components': [comp('tools'), comp('mid', 0, ['stage0.tools:ref']),
                        comp('user', 1, ['stage0.tools/o.txt:copy', 'stage0.mid:ref'])]},
-        nonc=('tools',), files={'tools/run.sh': '#!/bin/sh\n'}))
+        nonc=('tools',), files={'tools/run.sh': '#!/bin/sh\n'}, shape_only=True))
     # -- replication that reaches consumers, replica names with two digits, the replica variable in inherited replicas
     out.append(_b('b29-replica-consumers', {
         'variables': {'default': {'global': {'n': 2, 'many': 11}}},
@@ -217,7 +219,8 @@ def bases():
                        comp('probe', 1, args='%(replica)s', workflowAttributes={'replicate': 2}),
                        comp('join', 2, ['stage0.work:ref', 'stage0.audit:ref'], workflowAttributes={'aggregate': True}),
                        comp('collect', 2, ['stage1.sweep:ref'], workflowAttributes={'aggregate': True}),
-                       comp('gather', 2, ['stage1.probe:ref'], workflowAttributes={'aggregate': True})]}))
+                       comp('gather', 2, ['stage1.probe:ref'], workflowAttributes={'aggregate': True})]},
+        shape_only=True))
     return out
 
 
@@ -459,8 +462,9 @@ def mutations(base, platform, thorough):
                     if 0 <= k <= n:
                         yield {'kind': 'dupreplica', 'where': 'doc', 'index': b['where'][1],
                                'to': '%s%d' % (a['name'], k), 'like': a['where'][1]}
+    bulk = thorough or not base.get('shape_only')
     # 5. misspell every option key at every nesting level
-    for path, key, scope in an.key_positions:
+    for path, key, scope in an.key_positions if bulk else []:
         typos = _misspellings(key)
         # quick: two typos for the keys that give the document its shape (depth <= 3), one for deeper option keys
         for new in typos if thorough else typos[:2 if len(path) <= 3 else 1]:
@@ -468,10 +472,10 @@ def mutations(base, platform, thorough):
                 continue
             yield {'kind': 'misspell', 'path': _jpath(path), 'key': key, 'new': new}
     # 5b. the same fault by insertion: an unknown key next to the valid ones, in every dict whose keys the schema fixes
-    for path, scope in an.containers:
+    for path, scope in an.containers if bulk else []:
         yield {'kind': 'addkey', 'path': _jpath(path), 'new': 'c11x'}
     # 6. a value of the wrong type for every typed option
-    for path, t, scope in an.typed_positions:
+    for path, t, scope in an.typed_positions if bulk else []:
         if len(path) <= 1:
             continue
         for w in _wrong_values(t, thorough):
